@@ -121,6 +121,30 @@ func c06Case(r *verifkit.R, phase string, ci int, rng *verifkit.Rand, profile st
 	if rng.Bool() {
 		sets[1] = c06Set(rng, "mixed", rng.Range(1, 5), 2)
 	}
+	// Redundant exits: some prefixes / domain patterns / forward keys are originated by two or
+	// three of the agents 0, 1, 2 at once (incl. agent 1, which later replays to a new peer,
+	// and agent 0, which replays to another). Every origin's group must still arrive complete.
+	sharedBy := []int{}
+	if rng.Chance(3, 5) {
+		who := []int{0, 1, 2}
+		verifkit.Shuffle(rng, who)
+		sharedBy = who[:rng.Range(2, 3)]
+		pool := []simRouteKey{
+			{Kind: "cidr", Key: "0.0.0.0/0"}, {Kind: "cidr", Key: "10.0.0.0/8"}, {Kind: "cidr", Key: "192.168.77.0/24"},
+			{Kind: "cidr", Key: "2001:db8:ffff::/48"}, {Kind: "domain", Key: "*.shared.example.net"},
+			{Kind: "domain", Key: "exact.shared.example.net"}, {Kind: "forward", Key: "shared-svc"},
+		}
+		verifkit.Shuffle(rng, pool)
+		for _, k := range pool[:rng.Range(1, 5)] {
+			for _, o := range sharedBy {
+				kk := k
+				if kk.Kind == "forward" {
+					kk.Target = fmt.Sprintf("10.8.%d.1:8080", o) // each exit forwards to its own target
+				}
+				sets[o] = append(sets[o], kk)
+			}
+		}
+	}
 	for o, set := range sets {
 		for _, k := range set {
 			if !s.AddLocal(o, k) {
@@ -131,7 +155,7 @@ func c06Case(r *verifkit.R, phase string, ci int, rng *verifkit.Rand, profile st
 	}
 	nameLen := len("node-0")
 	class := c06Class(sets[0], nameLen, 2)
-	desc := fmt.Sprintf("profile=%s n=%d wire-routes=%d route-bytes=%d neighbour-set=%d class=%s", profile, n, n+1, c06WireBytes(sets[0]), len(sets[1]), class)
+	desc := fmt.Sprintf("profile=%s n=%d wire-routes=%d route-bytes=%d sets: agent0=%d agent1=%d agent2=%d shared-by=%v class=%s", profile, n, len(sets[0])+1, c06WireBytes(sets[0]), len(sets[0]), len(sets[1]), len(sets[2]), sharedBy, class)
 	vio := 0
 	bad := func(key, detail string) {
 		vio++
@@ -202,8 +226,8 @@ func c06Case(r *verifkit.R, phase string, ci int, rng *verifkit.Rand, profile st
 		}
 	}
 
-	// 1. announcement and forwarding
-	order := []int{0, 1}
+	// 1. announcement and forwarding (chain 0 - 1 - 2)
+	order := []int{0, 1, 2}
 	verifkit.Shuffle(rng, order)
 	for _, o := range order {
 		if _, ok := sets[o]; ok || o == 0 {
@@ -213,27 +237,50 @@ func c06Case(r *verifkit.R, phase string, ci int, rng *verifkit.Rand, profile st
 	if !run() {
 		return
 	}
-	compare("neighbour", 1, 0, true)
-	compare("second-hop", 2, 0, true)
-	if _, ok := sets[1]; ok {
-		compare("neighbour", 0, 1, true)
-		compare("neighbour", 2, 1, true)
+	origins := []int{0}
+	for _, o := range []int{1, 2} {
+		if _, ok := sets[o]; ok {
+			origins = append(origins, o)
+		}
 	}
-	// 2. a new peer of the neighbour: replayed groups
+	if len(sharedBy) > 0 {
+		r.Add("cases_with_shared_keys", 1)
+	}
+	for _, o := range origins {
+		for x := 0; x <= 2; x++ {
+			switch d := x - o; d {
+			case 0:
+			case 1, -1:
+				compare("neighbour", x, o, true)
+			default:
+				compare("second-hop", x, o, true)
+			}
+		}
+	}
+	// 2. a new peer of agent 1: what the replay alone delivers, for every group agent 1 holds
 	s.Connect(1, 3)
 	if !run() {
 		return
 	}
-	compare("new-peer-replay", 3, 0, true)
-	if _, ok := sets[1]; ok {
-		compare("new-peer-own-replay", 3, 1, false)
+	for _, o := range origins {
+		if o == 1 {
+			compare("new-peer-own-replay", 3, 1, false)
+		} else {
+			compare("new-peer-replay", 3, o, true)
+		}
 	}
-	// 3. a new peer of the origin: the origin replays its own routes
+	// 3. a new peer of agent 0: it replays its own routes and the groups it learned
 	s.Connect(0, 4)
 	if !run() {
 		return
 	}
-	compare("origin-replay", 4, 0, false)
+	for _, o := range origins {
+		if o == 0 {
+			compare("origin-replay", 4, 0, false)
+		} else {
+			compare("new-peer-replay", 4, o, true)
+		}
+	}
 	// 4. next periodic announcement reaches everybody, new peers included
 	s.Announce(0)
 	if !run() {
@@ -257,7 +304,7 @@ func c06Case(r *verifkit.R, phase string, ci int, rng *verifkit.Rand, profile st
 	r.Add("frames_sent", len(s.Sent))
 	r.Add("send_errors", len(s.SendErrs))
 	r.Add("cases_"+class, 1)
-	r.Eval(fmt.Sprintf("%s|%d|%d|%x", profile, n, len(sets[1]), rng.U64()), n > 0)
+	r.Eval(fmt.Sprintf("%s|%d|%d|%d|%v|%x", profile, n, len(sets[1]), len(sets[2]), sharedBy, rng.U64()), len(sets[0]) > 0)
 	if n > 0 && r.NeedSample() {
 		r.Sample(map[string]any{"scenario": desc, "frames": len(s.Sent), "first_routes": sets[0][:min(3, len(sets[0]))]})
 	}
@@ -287,10 +334,14 @@ func TestVerif_C06(t *testing.T) {
 		if rng.Chance(1, 3) {
 			n = rng.Range(0, 600)
 		}
+		if strings.HasSuffix(profile, "-long") && rng.Bool() {
+			n = rng.Range(100, 254) // <= 255 routes but well above one frame
+		}
 		c06Case(r, "any", ci, rng, profile, n)
 	})
 	r.Require("sets_compared", 1000)
 	r.Require("cases_fits", 100)
+	r.Require("cases_with_shared_keys", 60)
 	r.Require("cases_count-wrap", 20)
 	r.Require("cases_oversize", 10)
 }
